@@ -39,7 +39,11 @@ def main():
             ["dec", "0", "1"], ["int", "100000000000000000000000", "1"], ["float", "1", "1267650600228229401496703205376"]]
     for _ in range(250 if quick else 4000):
         quantities.append({"m": rng.choice(MAGS), "u": rand_spec() if rng.random() < 0.7 else [[rng.choice([None] + prefixes), rng.choice(names), 1]]})
-    extra_prefixes = [[a, b, op] for a in ("kilo", "mebi", "milli", "kibi") for b in ("kibi", "mega", "kilo", "pebi") for op in ("mul", "div") if (a in prefixes and b in prefixes)] + [[10, 7], [2, 5], [10, -5], [7, 3]]
+    extra_prefixes = [[a, b, op] for a in ("kilo", "mebi", "milli", "kibi") for b in ("kibi", "mega", "kilo", "pebi") for op in ("mul", "div") if (a in prefixes and b in prefixes)] + [[10, 7], [2, 5], [10, -5], [7, 3], [1, 3], [1, -2]]
+    # units under anonymous prefixes, including prefixes of value 1 that are not the identity prefix (base 1)
+    for ap in ([10, 7], [2, 5], [7, 3], [1, 3], [1, -2], [10, -5]):
+        for n, e in (("meter", 1), ("second", -2), ("gram", 2), ("one", 1)):
+            if n in names: units.append([[ap, n, e]])
     # exhaustive: every named unit x every prefix once, as a quantity (its JSON stores the unit as text)
     for n in names:
         for p in prefixes:
